@@ -27,6 +27,22 @@ func OpaqueValidSemver(v string) bool { return true }
 //@   ensures implies(err != nil, fsWrites() == old(fsWrites()))
 //@   ensures implies(fsWrites() > old(fsWrites()), lastWritePath() == cmdPath && !OpaqueInstallValidated(fsWrites()))
 
+// NewUpdater (updater.go): with Filters, OS and Arch left empty, DetectLatest only accepts an
+// asset whose name ends in <runtime.GOOS>_<runtime.GOARCH> (plus a known archive extension);
+// any configured filter REPLACES that matching. The checksum validator is consulted by
+// DetectLatest/UpdateTo of THIS updater only when it is configured here.
+//@ extern selfupdate.NewUpdater
+//@   params config
+//@   results u err
+//@   requires platform-matching-left-to-the-library: len(config.Filters) == 0 && config.OS == "" && config.Arch == ""
+//@   requires validator-configured: !isNil(config.Validator)
+
+// getLatestVersionFromGitHub: the release detector is configured so that only this platform's
+// asset qualifies and the checksum file is required.
+//@ contract getLatestVersionFromGitHub
+//@   tags C20
+//@   results rel err
+
 // Release.LessOrEqual (release.go): r.version.Compare(semver.MustParse(other)) <= 0 - it
 // PANICS when `other` is not a semantic version.
 //@ extern selfupdate.Release.LessOrEqual
